@@ -2,13 +2,55 @@ package symgo
 
 // hashVal models hash/fnv Sum64 as an injective function of the byte stream written
 // (collision-freeness of FNV-64a on distinct streams is an assumption, DESIGN.md §5).
+// On fully concrete streams the real FNV-64a value is computed instead.
+
+import (
+	"hash/fnv"
+)
+
 type hashVal struct{ stream []value }
 
-type shash struct{ stream []value } // decimal rendering of a hashVal
+// shash is a string made of a string-like prefix followed by the decimal rendering of
+// a symbolic-stream hash (e.g. "<urlKey>#<hash>").  Only concatenation on the left and
+// equality are supported.
+type shash struct {
+	prefix value
+	stream []value
+}
 
-func (h hashVal) asString() value {
-	if s, ok := mkSstr(h.stream).(string); ok {
-		return "h" + s // unreachable for concrete streams (real FNV runs), kept for safety
+func (h hashVal) asString() value { return shash{prefix: "", stream: h.stream} }
+
+func streamEq(a, b []value) *Term {
+	if len(a) != len(b) {
+		return tFalse
 	}
-	return shash{h.stream}
+	r := tTrue
+	for i := range a {
+		r = mkAnd(r, byteEq(a[i], b[i]))
+	}
+	return r
+}
+
+func init() {
+	externals["(*hash/fnv.sum64a).Write"] = func(fr *frame, a []value) (value, bool) {
+		cell := a[0].(*value)
+		data := a[1].([]value)
+		fr.i.fnvStreams[cell] = append(fr.i.fnvStreams[cell], data...)
+		return tuple{len(data), iface{}}, true
+	}
+	externals["(*hash/fnv.sum64a).Sum64"] = func(fr *frame, a []value) (value, bool) {
+		cell := a[0].(*value)
+		st := fr.i.fnvStreams[cell]
+		conc := make([]byte, 0, len(st))
+		for _, b := range st {
+			c, ok := b.(uint8)
+			if !ok {
+				return hashVal{append([]value(nil), st...)}, true
+			}
+			conc = append(conc, c)
+		}
+		h := fnv.New64a()
+		h.Write(conc)
+		return h.Sum64(), true
+	}
 }
